@@ -143,6 +143,9 @@ const c15hMaxConns = 2
 type c15hSys struct {
 	s     *trafficStatsServerImpl
 	polls int
+	// the auth ids of the two users of the history, verbatim ("u" and "v" unless a spelling part
+	// chose others, see c15hSpellings)
+	u, v string
 	// reference, from the property statement
 	kick    map[string]bool      // kicked, next report not yet seen
 	online  map[string]int       // connected authenticated connections
@@ -150,9 +153,36 @@ type c15hSys struct {
 	cleared map[string][2]uint64 // bytes handed out by clearing snapshots, ever
 }
 
-func c15hNew() xstate.Sys[c15hOp] {
-	return &c15hSys{s: NewTrafficStatsServer("").(*trafficStatsServerImpl), kick: map[string]bool{}, online: map[string]int{},
+func c15hNew() xstate.Sys[c15hOp] { return c15hNewIDs("u", "v") }
+
+func c15hNewIDs(u, v string) xstate.Sys[c15hOp] {
+	return &c15hSys{s: NewTrafficStatsServer("").(*trafficStatsServerImpl), u: u, v: v, kick: map[string]bool{}, online: map[string]int{},
 		allowed: map[string][2]uint64{}, cleared: map[string][2]uint64{}}
+}
+
+// The SPELLING of an auth id. The server takes the id verbatim from the authenticator (the http
+// and command authenticators return whatever their backend printed), so "Alice" and "alice", or
+// " padded " and "padded", are two users: a kick of id X refuses exactly the next report of
+// exactly X (byte for byte) and never a namesake's, the listing and the counters are kept per
+// verbatim id. A spelling part runs the histories with the two users of the history being such a
+// pair of namesakes (u = the first, v = the second spelling), judged by the same clauses.
+// Added after the independently seeded change C15-12 (POST /kick lower-cased and trimmed each id
+// before putting it into the KickMap while LogTraffic looked the verbatim id up, so a kick of
+// "Alice" was never honoured and refused a report of "alice" instead).
+var c15hSpellings = [][2]string{
+	{"Alice", "alice"},
+	{" padded ", "padded"},
+	{"BOB-42", "bob-42"},
+	{"u\t", "U"},
+}
+
+// c15hSpellingOf finds the ids of a part by its name (for replay); "u", "v" for every other part.
+func c15hSpellingOf(part string) (string, string) {
+	var i int
+	if n, _ := fmt.Sscanf(part, "histories/spelling=%d:", &i); n == 1 && i >= 0 && i < len(c15hSpellings) {
+		return c15hSpellings[i][0], c15hSpellings[i][1]
+	}
+	return "u", "v"
 }
 
 func (y *c15hSys) do(method, path, body string) (int, string) {
@@ -241,7 +271,8 @@ func (y *c15hSys) traffic(clear bool) error {
 func (y *c15hSys) wire(method, target string) error {
 	body := ""
 	if target == "/kick" {
-		body = `["u"]`
+		b, _ := json.Marshal([]string{y.u})
+		body = string(b)
 	}
 	code, got, err := c15hRoundTrip(y.s, method, target, body)
 	if err != nil {
@@ -268,7 +299,7 @@ func (y *c15hSys) wire(method, target string) error {
 			return fmt.Errorf("kick status: POST /kick %s answered %d %q", body, code, got)
 		}
 		if code == http.StatusOK {
-			y.kick["u"] = true
+			y.kick[y.u] = true
 		}
 	case "/online":
 		if method == http.MethodGet {
@@ -313,23 +344,23 @@ func (y *c15hSys) Apply(op c15hOp) error {
 	var err error
 	switch op {
 	case c15hConnectU:
-		y.state("u", true)
+		y.state(y.u, true)
 	case c15hDisconnectU:
-		y.state("u", false)
+		y.state(y.u, false)
 	case c15hConnectV:
-		y.state("v", true)
+		y.state(y.v, true)
 	case c15hDisconnectV:
-		y.state("v", false)
+		y.state(y.v, false)
 	case c15hKickU:
-		err = y.postKick("u")
+		err = y.postKick(y.u)
 	case c15hKickUV:
-		err = y.postKick("u", "v")
+		err = y.postKick(y.u, y.v)
 	case c15hReportU:
-		err = y.report("u", 1, 16)
+		err = y.report(y.u, 1, 16)
 	case c15hReportV:
-		err = y.report("v", 2, 32)
+		err = y.report(y.v, 2, 32)
 	case c15hReportU0:
-		err = y.report("u", 0, 0)
+		err = y.report(y.u, 0, 0)
 	case c15hTraffic:
 		err = y.traffic(false)
 	case c15hTrafficClear:
@@ -357,13 +388,13 @@ func c15hEnabled(s xstate.Sys[c15hOp], op c15hOp) bool {
 	y := s.(*c15hSys)
 	switch op {
 	case c15hConnectU:
-		return y.online["u"] < c15hMaxConns
+		return y.online[y.u] < c15hMaxConns
 	case c15hConnectV:
-		return y.online["v"] < c15hMaxConns
+		return y.online[y.v] < c15hMaxConns
 	case c15hDisconnectU:
-		return y.online["u"] > 0
+		return y.online[y.u] > 0
 	case c15hDisconnectV:
-		return y.online["v"] > 0
+		return y.online[y.v] > 0
 	}
 	return true
 }
@@ -451,8 +482,43 @@ func c15hRunWire(sh *evidence.Shard) {
 	}
 }
 
+// c15hRunSpellings: one search per pair of namesake ids of c15hSpellings, over the 12 operations
+// of the histories with u and v spelled as the pair says (added after the independently seeded
+// change C15-12, see c15hSpellings).
+func c15hRunSpellings(sh *evidence.Shard) {
+	env := sh.Env()
+	depth := 5
+	if env.Thorough() {
+		depth = 8
+	}
+	for i, sp := range c15hSpellings {
+		if !env.Mine(int64(c15hNOps) + 1 + int64(i)) {
+			continue
+		}
+		u, v := sp[0], sp[1]
+		p := sh.Part(fmt.Sprintf("histories/spelling=%d:u=%q,v=%q", i, u, v), "xstate")
+		p.Alphabet = map[string]any{
+			"operations": c15hNames[:],
+			"spellings":  c15hSpellings,
+			"u":          u,
+			"v":          v,
+			"dimension":  "spelling of the auth id: the two users of the history are namesakes that differ only by case / surrounding blanks; a kick of id X refuses exactly the next report of exactly X, listing and counters are per verbatim id",
+		}
+		p.Bounds = map[string]any{"max_depth": depth, "max_connections_per_user": c15hMaxConns, "users": 2}
+		res := xstate.BFS(xstate.Config[c15hOp]{Ops: c15hOps(), New: func() xstate.Sys[c15hOp] { return c15hNewIDs(u, v) }, MaxDepth: depth, Enabled: c15hEnabled, MaxStates: 400000}, p, env)
+		if res.Violation != nil {
+			var h []string
+			for _, o := range res.History {
+				h = append(h, o.String())
+			}
+			sh.Violate(p.Name, fmt.Sprintf("histories/%s/u=%q,v=%q/%s", strings.SplitN(res.Violation.Error(), ":", 2)[0], u, v, strings.Join(h, ";")), res.Violation.Error(), res.History)
+		}
+	}
+}
+
 func c15hRun(sh *evidence.Shard) {
 	c15hRunWire(sh)
+	c15hRunSpellings(sh)
 	env := sh.Env()
 	depth := 7
 	if env.Thorough() {
@@ -506,7 +572,7 @@ func TestVerifC15Histories(t *testing.T) {
 		if err := json.Unmarshal(raw, &h); err != nil {
 			return true, false, err.Error()
 		}
-		s := c15hNew()
+		s := c15hNewIDs(c15hSpellingOf(part))
 		for _, o := range h {
 			if err := s.Apply(o); err != nil {
 				return true, true, err.Error()
